@@ -24,6 +24,8 @@ func init() {
 		Doc: "nothing reachable from Publish writes shared memory", Run: runPubRO})
 	reg(&core.RuleInfo{Name: "PUB-NB", Props: []string{"C07"}, Engine: "CG", Floor: 1, Confirmed: 1,
 		Doc: "nothing reachable from Publish blocks", Run: runPubNB})
+	reg(&core.RuleInfo{Name: "PUB-ALL", Props: []string{"C07"}, Engine: "CFG", Floor: 1, Confirmed: 1,
+		Doc: "the walk from Publish to the per-subscriber send visits every registered subscriber: no loop on the way is left early", Run: runPubAll})
 }
 
 // frozen guarded-field table (confirmed by reading; DESIGN.md §5 C15)
@@ -976,6 +978,90 @@ func runPubRO(c *core.Ctx) {
 	c.Check(len(bad) == 0, nil, fname(c, pub), "publish-region/writes", P.Pos(pub.Pos()),
 		fmt.Sprintf("%d module functions reachable from Publish store only to memory they allocate: concurrent publishers need only the read lock", len(fns)),
 		"a function reachable from Publish writes shared memory while only the read lock is held: "+strings.Join(bad, "; "))
+}
+
+// PUB-ALL (closed world): on the way from Publish to the per-subscriber
+// non-blocking send every loop that (directly or through a callback) leads to a
+// delivery runs over all its elements — its only exit is the loop condition.
+// A `return`/`break` from the body (stop at the first full buffer, first match,
+// first error …) leaves the remaining subscribers without the event although
+// their own buffers have room.
+func runPubAll(c *core.Ctx) {
+	P := c.P
+	pub := publishRoot(c)
+	if pub == nil {
+		c.NoAnchor(nil, "subscribers.Publish")
+		return
+	}
+	delivers := func(f *ssa.Function) bool {
+		for _, g := range moduleReach(c, f) {
+			for _, op := range an.ChanOps(g) {
+				if op.Kind == an.OpSelect && !op.Select.Blocking {
+					for _, st := range op.Select.States {
+						if st.Dir == types.SendOnly {
+							return true
+						}
+					}
+				}
+			}
+		}
+		return false
+	}
+	fns := moduleReach(c, pub)
+	var bad []string
+	nLoops := 0
+	for _, fn := range fns {
+		if !delivers(fn) {
+			continue
+		}
+		c.CountFuncs(1)
+		for _, h := range fn.Blocks {
+			if len(an.Latches(h)) == 0 {
+				continue
+			}
+			body := an.LoopBlocks(h)
+			// only loops whose body can lead to a delivery
+			leads := false
+			for b := range body {
+				for _, in := range b.Instrs {
+					ci, ok := in.(ssa.CallInstruction)
+					if !ok {
+						continue
+					}
+					if sc := an.StaticCallee(ci.Common()); sc != nil {
+						if P.InModule(sc) && delivers(sc) {
+							leads = true
+						}
+					} else if _, isB := ci.Common().Value.(*ssa.Builtin); !isB {
+						leads = true // a callback or interface method
+					}
+				}
+			}
+			if !leads {
+				continue
+			}
+			nLoops++
+			for b := range body {
+				if b == h {
+					continue
+				}
+				for _, s := range b.Succs {
+					if !body[s] {
+						bad = append(bad, fmt.Sprintf("%s leaves its loop early at %s", fname(c, fn), P.Pos(an.LastInstr(b).Pos())))
+					}
+				}
+			}
+		}
+	}
+	c.CountSites(nLoops)
+	if nLoops == 0 {
+		c.NoAnchor(nil, "loops between Publish and the per-subscriber send")
+		return
+	}
+	sort.Strings(bad)
+	c.Check(len(bad) == 0, nil, fname(c, pub), "publish-region/complete-walk", P.Pos(pub.Pos()),
+		fmt.Sprintf("%d loop(s) between Publish and the per-subscriber send, each left only when its elements are exhausted: every registered subscriber is offered the event", nLoops),
+		"the walk over the registered subscribers can stop early ("+strings.Join(bad, "; ")+"): subscribers behind that point miss the event although their own buffer has room")
 }
 
 func runPubNB(c *core.Ctx) {
